@@ -521,8 +521,9 @@ def prepare(rep, harnesses=('pure',), sanitize=None, prove_it=True, proof_timeou
         sanitize = True
     ctx.exe = {}
     ctx.san = {}
-    for h in harnesses:
-        spec = HARNESSES[h] or pure_harness(rep.id)
+    if not isinstance(harnesses, dict):
+        harnesses = {h: (HARNESSES.get(h) or pure_harness(rep.id)) for h in harnesses}
+    for h, spec in harnesses.items():
         hok, exe, lg = build_harness(ctx.snap, h, spec['harness'], spec['repo'], ctx.work, wraps=spec.get('wraps', ()))
         if hok:
             ctx.exe[h] = exe
@@ -550,3 +551,14 @@ def pure_harness(prop):
 HARNESSES = {
     'pure': None,   # resolved per property: hmain.c + h_<id>.c + the stateless repo objects
 }
+
+# A check may also pass prepare(rep, harnesses={'name': spec}) with its own spec, e.g. a
+# translation unit that #includes iodined.c or client.c to reach their static functions:
+SERVER_TU_SRCS = COMMON_SRCS + ['user.c', 'fw_query.c']           # + harness file including iodined.c
+CLIENT_TU_SRCS = COMMON_SRCS + ['util.c']                          # + harness file including client.c
+
+
+def tu_harness(files, kind, wraps):
+    """files: harness C files (one of them does `#define main x_main` + `#include SNAP_SRC "/iodined.c"`
+    or client.c); kind: 'server' | 'client'; wraps: symbols intercepted with -Wl,--wrap=."""
+    return dict(harness=list(files), repo=SERVER_TU_SRCS if kind == 'server' else CLIENT_TU_SRCS, wraps=list(wraps))
